@@ -28,7 +28,10 @@ BOUNDS = ("Histories are ENUMERATED: every sequence of up to 3 (quick) / 4 (thor
           "writer; teardown disconnected every writer, emptied the list and did not close streams "
           "the caller supplied. Plus CONCRETE (not solver-decided) cells with a path-based FileWriter on a real "
           "temporary file: every history of up to 3/4 steps over {emit, remove + re-add the writer, "
-          "flush} ending in teardown leaves exactly the concatenation of the lines in the file.")
+          "flush} ending in teardown leaves exactly the concatenation of the lines in the file; and with a "
+          "FileWriter on a real buffered file object the caller opened: every valid history of up to 5 "
+          "(thorough 6) steps over {emit, remove_writer, add_writer, flush}: after each flush() issued "
+          "while the writer is registered the file on disk holds every line written to it.")
 ASSUMPTIONS = [
     "io objects are stubs: real files/streams (C-implemented io, the file system, buffering) are "
     "only exercised by the concrete path-based cells",
@@ -310,8 +313,92 @@ def _make_real_history(seq):
     return h
 
 
+def _make_fileobj_history(seq, binary):
+    """Concrete: a FileWriter on a real, buffered file object that the CALLER opened (and owns),
+    through a history of emit / remove_writer / add_writer / flush: after every flush() issued
+    while the writer is registered the file on disk holds every line written to it so far; after
+    teardown() and the caller's close() it holds all of them."""
+    from gscrib import GCodeBuilder
+    from gscrib.writers import FileWriter
+
+    def h():
+        d = tempfile.mkdtemp(prefix="vf_c14_")
+        path = os.path.join(d, "out.gcode")
+        fo = open(path, "wb") if binary else open(path, "w", encoding="utf-8", newline="")
+        try:
+            g = GCodeBuilder(line_endings="\\n")
+            fw = FileWriter(fo)
+            g.add_writer(fw)
+            registered = True
+            want = b""
+            n = 0
+            for k, op in enumerate(seq):
+                if op == "emit":
+                    n += 1
+                    ref = Rec()
+                    g.add_writer(ref)
+                    g.comment(f"line {n} é")
+                    g.remove_writer(ref)
+                    if registered:
+                        want += b"".join(ref.chunks)
+                elif op == "remove":
+                    g.remove_writer(fw)
+                    registered = False
+                elif op == "add":
+                    g.add_writer(fw)
+                    registered = True
+                elif op == "flush":
+                    g.flush()
+                    if registered:
+                        with open(path, "rb") as f:
+                            data = f.read()
+                        if data != want:
+                            return V("file-contents-differ-from-the-emitted-stream",
+                                     lambda: f"history {seq[:k + 1]}: after flush() the caller's file holds "
+                                             f"{data!r}, written to it so far {want!r}")
+            g.teardown()
+            if fo.closed:
+                return V("caller-supplied-stream-closed", lambda: f"history {seq}")
+            fo.close()
+            with open(path, "rb") as f:
+                data = f.read()
+            if data != want:
+                return V("file-contents-differ-from-the-emitted-stream",
+                         lambda: f"history {seq}: after teardown() and close() the file holds {data!r}, "
+                                 f"written to it {want!r}")
+            reached("end")
+            return None
+        finally:
+            import shutil
+            if not fo.closed:
+                fo.close()
+            shutil.rmtree(d, ignore_errors=True)
+    return h
+
+
+def _fileobj_sequences(maxlen):
+    out = []
+    for n in range(2, maxlen + 1):
+        for seq in itertools.product(("emit", "remove", "add", "flush"), repeat=n):
+            reg, ok = True, True
+            for op in seq:
+                if op == "remove":
+                    ok, reg = ok and reg, False
+                elif op == "add":
+                    ok, reg = ok and not reg, True
+            if ok and "emit" in seq and "flush" in seq:
+                out.append(seq)
+    return out
+
+
 def cells(tier):
     out = []
+    for binary in (False, True):
+        for seq in _fileobj_sequences((5 if not binary else 3) if tier == "quick" else 6):
+            out.append(Cell(f"real-fileobj-history|{'binary' if binary else 'text'}|" + ",".join(seq),
+                            _make_fileobj_history(seq, binary), budget_s=60, must_reach=("end",),
+                            entry="FileWriter (caller's file object, concrete)",
+                            note="concrete, not solver-decided"))
     for n in (2, 3, 4):
         for seq in itertools.product(("emit", "readd", "flush"), repeat=n):
             if "emit" in seq and (tier != "quick" or n <= 3):
